@@ -151,7 +151,8 @@ theorem event_do_out_of_space : (eventDo true .outOfSpace).notes = [.outOfSpaceE
 theorem event_do_token : eventDo true .token = { needAuth := true, raised := some .backoffError } := by decide
 
 theorem event_do_cursor :
-    eventDo true .cursor = { cursorReset := true, needWalk := true, raised := some .backoffError } := by decide
+    eventDo true .cursor = { cursorReset := true, walkForgot := true, needWalk := true, raised := some .backoffError } := by
+  decide
 
 /-- without a notification manager nothing is reported (event.py:180) -/
 theorem event_do_without_nmgr_silent (e : Exc) : (eventDo false e).notes = [] := by cases e <;> decide
